@@ -12,14 +12,22 @@
                }
            }
            (Err(e), false) => return Err(e),                      AUnlink (drop of tmp); AFail
-           (Err(_), true) => continue,                            AUnlink (drop of tmp)
+           (Err(e), true) => {
+               if self.zip.file_names().any(|n| n == key) {       the member is STORED but cannot be read back:
+                   return Err(e);                                 AUnlink (drop of tmp); AFail
+               }
+               continue;                                          the member is ABSENT: AUnlink (drop of tmp)
+           }
        }
 
-   [get_object] fails when the member is missing, is not `Stored`, or does not decode (zstd error, zip CRC
-   error, write error): whatever it wrote before failing is in the temp file.  An object description [obj]
+   [get_object] fails when the member is absent ([DecAbsent]), or is stored but is not `Stored`-compressed or
+   does not decode (zstd error, zip CRC error, write error: [DecCorrupt]): whatever it wrote before failing is
+   in the temp file.  Only an ABSENT optional member is skipped; a stored one that cannot be read back fails
+   the extraction whether optional or not (the fix "a stored optional object that cannot be read back makes
+   the cache entry a miss").  An object description [obj]
    fixes the environment's choices for one member: the random part of the temp name, HOW the decoded bytes
    arrive (any chunking), whether decoding succeeds ([DecOk mode], then the chunks are the complete member)
-   or fails ([DecErr], after the chunks), and an optional failing system call ([o_fault]).
+   or fails ([DecAbsent] / [DecCorrupt], after the chunks), and an optional failing system call ([o_fault]).
 
    Observers: threads of [AOpen p] / [ARead] actions.  [AOpen] stores the inode the path names NOW in the
    thread's descriptor; [ARead] logs the CURRENT bytes of that inode (a snapshot of the whole file at that
@@ -32,7 +40,7 @@ From Sccache Require Import Base.Sx Model.FsModel.
 Import ListNotations.
 Local Open Scope N_scope.
 
-Inductive dec := DecOk (mode : option N) | DecErr.
+Inductive dec := DecOk (mode : option N) | DecAbsent | DecCorrupt.
 Inductive fault := FNone | FCreate | FPersist | FChmod.
 
 Record obj := mkObj {
@@ -46,7 +54,7 @@ Record obj := mkObj {
 
 Definition o_tmp (o : obj) : path := tmp_of (o_path o) (o_sfx o).
 Definition o_new (o : obj) : bytes := concat (o_chunks o).
-Definition o_ok (o : obj) : bool := match o_dec o with DecOk _ => true | DecErr => false end.
+Definition o_ok (o : obj) : bool := match o_dec o with DecOk _ => true | _ => false end.
 
 Inductive action :=
 | ACreateTmp (t : path)
@@ -122,7 +130,8 @@ Definition prog_obj (o : obj) : list action :=
               | None => []
               end
           end
-      | DecErr => AUnlink (o_tmp o) :: (if o_optional o then [] else [AFail])
+      | DecAbsent => AUnlink (o_tmp o) :: (if o_optional o then [] else [AFail])
+      | DecCorrupt => [AUnlink (o_tmp o); AFail]
       end
   end.
 
@@ -141,8 +150,8 @@ Definition run (sched : list nat) (f0 : fs) (objs : list obj) (readers : list (@
   exec act sched (sys f0 objs readers).
 
 (* ---------- the result handed to the caller (src/compiler/compiler.rs, the cache-hit arm) ----------
-   Ok: the request is answered from the cache.  A DecompressionFailure (a member that is missing or does not
-   decode, not optional) turns the hit into a miss (`MissType::CacheReadError`): the compiler runs and rewrites
+   Ok: the request is answered from the cache.  A DecompressionFailure (a member that is stored but does not
+   decode, or is absent and not optional) turns the hit into a miss (`MissType::CacheReadError`): the compiler runs and rewrites
    the outputs.  Any other error (temp file cannot be made, persist or chmod fails) fails the request. *)
 Inductive result := ROk | RDecompressionFailure | ROtherError.
 
@@ -151,7 +160,8 @@ Definition o_hard (o : obj) : option result :=
   | FCreate => Some ROtherError
   | flt =>
       match o_dec o with
-      | DecErr => if o_optional o then None else Some RDecompressionFailure
+      | DecAbsent => if o_optional o then None else Some RDecompressionFailure
+      | DecCorrupt => Some RDecompressionFailure
       | DecOk mode =>
           match flt with
           | FPersist => Some ROtherError
